@@ -12,6 +12,7 @@
                               the N is Size() of the decoded value (memoised).  First argument is
                               fuel: [dec_fuel p] = length p + 1 always suffices (amf0_dec_fuel).
      decode : bytes -> res (amf * N)      := dec (dec_fuel p) p
+     decode_fast                          the same function computed in linear time (decf_eq)
      um_number um_bool um_string um_null um_undef um_object um_ecma um_strict
                               the typed UnmarshalBinary methods (marker checked by the method itself)
      set_prop                 objectBase.Set (replace-if-present, else append)
@@ -272,6 +273,79 @@ with dec_props (fuel : nat) (eof : bool) (maxn : N) (p : bytes)
 Definition dec_fuel (p : bytes) : nat := S (length p).
 Definition decode (p : bytes) : res (amf * N) := dec (dec_fuel p) p.
 
+(* ---- the same decoder in linear time (this is what the harness runs) ----
+   [dec] advances over a decoded child by walking Size() bytes (the code slices in O(1) but
+   recomputes Size() of the subtree), so it costs O(length * depth).  [decf] additionally returns
+   the input remaining after the value, and the container loop continues from there.
+   Proofs/Amf0.v decf_eq: [decode_fast p = decode p] for every p. *)
+Fixpoint decf (fuel : nat) (p : bytes) {struct fuel} : res (amf * N * bytes) :=
+  match fuel with
+  | O => Err E_FUEL
+  | S f =>
+    match p with
+    | [] => Err E_SHORT
+    | m :: r =>
+      if m =? mObject then
+        let* (ps, sz, rest) := decf_props f true 0 r [] 0 0 in
+        Ok (AObj ps, 1 + 3 + sz, rest)
+      else if m =? mEcmaArray then
+        match r with
+        | a :: b :: c :: d :: r' =>
+            let* (ps, sz, rest) := decf_props f true 0 r' [] 0 0 in
+            Ok (AEcma (ube4 a b c d) ps, 1 + 4 + 3 + sz, rest)
+        | _ => Err E_SHORT
+        end
+      else if m =? mStrictArray then
+        match r with
+        | a :: b :: c :: d :: r' =>
+            let count := ube4 a b c d in
+            if count =? 0 then Ok (AStrict [], 1 + 4, r')
+            else let* (ps, sz, rest) := decf_props f false count r' [] 0 0 in
+                 Ok (AStrict ps, 1 + 4 + sz, rest)
+        | _ => Err E_SHORT
+        end
+      else
+        (* scalars and rejected markers: no recursion, the result does not depend on the fuel *)
+        match dec 1 p with
+        | Ok (v, n) =>
+            match takeN n p with
+            | Some (_, rest) => Ok (v, n, rest)
+            | None => Panic 1
+            end
+        | Err e => Err e
+        | Panic s => Panic s
+        end
+    end
+  end
+with decf_props (fuel : nat) (eof : bool) (maxn : N) (p : bytes)
+                (racc : props) (n : N) (sz : N) {struct fuel} : res (props * N * bytes) :=
+  match fuel with
+  | O => Err E_FUEL
+  | S f =>
+    if negb eof && (maxn <=? n) then Ok (rev racc, sz, p)
+    else
+      match um_utf8 p with
+      | Ok (k, p1) =>
+          if eof && is_eof k p1 then Ok (rev racc, sz, tl p1)
+          else
+            match decf f p1 with
+            | Ok (v, vs, p2) =>
+                decf_props f eof maxn p2 ((k, v) :: racc) (N.succ n) (sz + (utf8_size k + vs))
+            | Err e => Err e
+            | Panic s => Panic s
+            end
+      | Err e => Err e
+      | Panic s => Panic s
+      end
+  end.
+
+Definition decode_fast (p : bytes) : res (amf * N) :=
+  match decf (dec_fuel p) p with
+  | Ok (v, n, _) => Ok (v, n)
+  | Err e => Err e
+  | Panic s => Panic s
+  end.
+
 (* the typed container methods (receiver type fixed by the caller, as rtmp.go does) *)
 Definition um_object (fuel : nat) (p : bytes) : res (amf * N) :=
   match p with
@@ -376,6 +450,12 @@ Definition spec_rd_str (p : bytes) : option (bytes * bytes) :=
   | _ => None
   end.
 
+(* the three bytes 00 00 09 (empty name + object-end-marker) end a property list *)
+Definition spec_is_end (p : bytes) : bool :=
+  match p with a :: b :: c :: _ => (a =? 0) && (b =? 0) && (c =? 9) | _ => false end.
+Definition spec_after_end (p : bytes) : bytes :=
+  match p with _ :: _ :: _ :: r => r | _ => [] end.
+
 (* returns the value and the remaining input *)
 Fixpoint spec_dec (fuel : nat) (p : bytes) {struct fuel} : option (amf * bytes) :=
   match fuel with
@@ -383,26 +463,47 @@ Fixpoint spec_dec (fuel : nat) (p : bytes) {struct fuel} : option (amf * bytes) 
   | S f =>
     match p with
     | [] => None
-    | 0 :: a :: b :: c :: d :: e :: f' :: g :: h :: r => Some (ANum (ube8 a b c d e f' g h), r)
-    | 1 :: b :: r => Some (ABool (negb (b =? 0)), r)
-    | 2 :: r => match spec_rd_str r with Some (s, r') => Some (AStr s, r') | None => None end
-    | 3 :: r => match spec_pairs f r [] with Some (ps, r') => Some (AObj ps, r') | None => None end
-    | 5 :: r => Some (ANull, r)
-    | 6 :: r => Some (AUndef, r)
-    | 8 :: a :: b :: c :: d :: r =>
-        match spec_pairs f r [] with Some (ps, r') => Some (AEcma (ube4 a b c d) ps, r') | None => None end
-    | 10 :: a :: b :: c :: d :: r =>
-        match spec_vals f (ube4 a b c d) r [] with Some (ps, r') => Some (AStrict ps, r') | None => None end
-    | _ => None
+    | m :: r =>
+      if m =? 0 then
+        match r with
+        | a :: b :: c :: d :: e :: f' :: g :: h :: r' => Some (ANum (ube8 a b c d e f' g h), r')
+        | _ => None
+        end
+      else if m =? 1 then
+        match r with b :: r' => Some (ABool (negb (b =? 0)), r') | _ => None end
+      else if m =? 2 then
+        match spec_rd_str r with Some (s, r') => Some (AStr s, r') | None => None end
+      else if m =? 3 then
+        match spec_pairs f r [] with Some (ps, r') => Some (AObj ps, r') | None => None end
+      else if m =? 5 then Some (ANull, r)
+      else if m =? 6 then Some (AUndef, r)
+      else if m =? 8 then
+        match r with
+        | a :: b :: c :: d :: r1 =>
+            match spec_pairs f r1 [] with
+            | Some (ps, r') => Some (AEcma (ube4 a b c d) ps, r')
+            | None => None
+            end
+        | _ => None
+        end
+      else if m =? 10 then
+        match r with
+        | a :: b :: c :: d :: r1 =>
+            match spec_vals f (ube4 a b c d) r1 [] with
+            | Some (ps, r') => Some (AStrict ps, r')
+            | None => None
+            end
+        | _ => None
+        end
+      else None
     end
   end
 with spec_pairs (fuel : nat) (p : bytes) (racc : props) {struct fuel} : option (props * bytes) :=
   match fuel with
   | O => None
   | S f =>
-    match p with
-    | 0 :: 0 :: 9 :: r => Some (rev racc, r)
-    | _ =>
+    if spec_is_end p then Some (rev racc, spec_after_end p)
+    else
       match spec_rd_str p with
       | Some (k, p1) =>
           match spec_dec f p1 with
@@ -411,7 +512,6 @@ with spec_pairs (fuel : nat) (p : bytes) (racc : props) {struct fuel} : option (
           end
       | None => None
       end
-    end
   end
 with spec_vals (fuel : nat) (n : N) (p : bytes) (racc : props) {struct fuel} : option (props * bytes) :=
   match fuel with
@@ -498,10 +598,10 @@ Definition run_c05 (c : sx) : sx :=
   match c with
   | SL [SZ 0%Z; t] =>
       match amf_of_sx true t with
-      | Some v => let b := enc v in s_ok [SB b; sN (size v); obs_res (decode b) true]
+      | Some v => let b := enc v in s_ok [SB b; sN (size v); obs_res (decode_fast b) true]
       | None => bad_case
       end
-  | SL [SZ 1%Z; SB b] => obs_res (decode b) true
+  | SL [SZ 1%Z; SB b] => obs_res (decode_fast b) true
   | _ => bad_case
   end.
 
@@ -524,9 +624,9 @@ Definition run_c06 (c : sx) : sx :=
       | Some v =>
           let lb := enc v in
           let sb := spec_enc v in
-          s_ok [SB lb; SB sb; obs_res (decode sb) false; obs_spec (spec_decode lb)]
+          s_ok [SB lb; SB sb; obs_res (decode_fast sb) false; obs_spec (spec_decode lb)]
       | None => bad_case
       end
-  | SL [SZ 1%Z; SB b] => s_ok [obs_res (decode b) false; obs_spec (spec_decode b)]
+  | SL [SZ 1%Z; SB b] => s_ok [obs_res (decode_fast b) false; obs_spec (spec_decode b)]
   | _ => bad_case
   end.
